@@ -25,6 +25,11 @@ def run(ck):
     from harness.drivers import history
     progs = history.derived_programs(ck.seed, 40 if q else 800, tids=tids)
     progs += walks.walk_programs(ck.seed, 320 if q else 6000, depth=7 if q else 9, tids=tids)
+    # factors of decompositions and truncations (bond limit alone, cutoffs, absorb options) of matrices with several
+    # charges of unequal sizes in every direction pattern: their bond tables must match their blocks
+    from harness.drivers import linalg_drv
+    progs += linalg_drv.trunc_programs(ck.seed, 18 if q else 300, tids=tids)
+    progs += linalg_drv.programs(ck.seed, 20 if q else 400, tids=tids)
     ck.cov["rule"] = ("adaptive random walks of 7-9 public calls (structure, fuse/unfuse/reshape, contraction in every mode, "
                       "arithmetic, phase operations, decompositions) from random sparse inputs over Z2/U1/Z2Z2/U1U1/Z4, static and "
                       "dynamic classes, four dtypes; Valid() is evaluated by TLC on every array of every event")
